@@ -39,7 +39,7 @@ Judge(r) ==
   IF r.obs.kind = "ok"
     THEN LET samples == Rng(r.obs.samples)
              refok == \A s \in samples :
-                         /\ s.roundtrip = RefRoundtrip(d)
+                         /\ s.roundtrip = RefRoundtripV(d, s.v)
                          /\ Canon(s.json) = Canon(RefValue(d, s.v, s.some))
                          /\ \A p \in Rng(s.probes) : p.ok = RefProbeOk(d, s.v, p.path)
              sigs == {SigOf(d, f) : f \in Fails(d, r.obs.schema, samples)}
